@@ -338,6 +338,56 @@ func runC16(r *Run) {
 		}
 	}
 	r.Floor("R7", "read-only precompile methods with a tabled native read", nQD, 20)
+	// R8: the bank precompile's denom → ERC20 address mapping
+	r.Rule("R8", "PATH.registered-pair-first: erc20 Keeper.GetCoinAddress — the only source of the addresses under which the bank precompile lists balances and supplies — resolves a denomination through the token-pair registry (GetDenomMap → GetTokenPair → pair contract) and falls back to the hash-derived IBC voucher address only over the edge on which the registry has no entry (len(id) == 0); balances()/totalSupply() obtain the address from GetCoinAddress")
+	if gca, ok := P.FnOK("(x/erc20/keeper.Keeper).GetCoinAddress"); ok {
+		isHash := isCallMatching(func(ci CallInfo) bool { return ci.Name == "GetIBCDenomAddress" })
+		noEntry, _ := condEdges(gca, func(x, y ssa.Value) bool {
+			c, ok := stripValue(x).(*ssa.Call)
+			if !ok {
+				return false
+			}
+			b, ok := c.Call.Value.(*ssa.Builtin)
+			if !ok || b.Name() != "len" {
+				return false
+			}
+			n, okc := constInt(y)
+			return okc && n == 0 && backSlice(c.Call.Args[0]).HasCall(func(g CallInfo) bool { return g.Name == "GetDenomMap" })
+		})
+		w := PathQuery{Fn: gca, Target: isHash, DelEdge: edgeSet(noEntry)}.Search()
+		pairAddr := false
+		eachInstr(gca, func(in ssa.Instruction) {
+			if ret, ok := in.(*ssa.Return); ok && isSuccessExit(in) {
+				if backSlice(retOperands(ret)[0]).HasCall(func(g CallInfo) bool { return g.Name == "GetTokenPair" }) {
+					pairAddr = true
+				}
+			}
+		})
+		r.Check(len(noEntry) > 0 && w == nil && pairAddr, "R8", fnID(gca)+"#registered-pair-first", P.Pos(fnPos(gca)), "hash-derived address only for denominations without a registered pair",
+			"GetCoinAddress can answer with the hash-derived voucher address for a denomination that has a registered token pair (or never answers with the pair's contract): the bank precompile lists that denomination under an address that is not its ERC20 contract", P.witness(w)...)
+	} else {
+		r.Bad("R8", "anchor/erc20.GetCoinAddress", "", "not found")
+	}
+	for _, m := range wiredPrecompiles(r) {
+		if m.Rel != "precompiles/bank" {
+			continue
+		}
+		for _, h := range m.Handlers {
+			if h.Fn == nil || (h.Method != "balances" && h.Method != "totalSupply") {
+				continue
+			}
+			uses := false
+			for _, f := range withAnon(h.Fn) {
+				eachCall(f, func(ci CallInfo) {
+					if ci.Name == "GetCoinAddress" {
+						uses = true
+					}
+				})
+			}
+			r.Check(uses, "R8", fnID(h.Fn)+"#address-from-registry", P.Pos(fnPos(h.Fn)), "addresses come from GetCoinAddress", "the bank precompile method "+h.Method+" no longer obtains ERC20 addresses from GetCoinAddress")
+		}
+	}
+
 	// R5: a handler that applies a Cosmos-side effect per element of a list applies it to every element
 	r.Rule("R5", "PATH.per-element-effect: in a precompile handler, a loop whose body performs a Cosmos-side effect performs it on every iteration — from the start of the body the loop header (next element) or a success exit is reachable only through the effect call; no filter `continue`/`break` decides which elements the native message would have processed anyway")
 	nLoopEff := 0
